@@ -358,3 +358,105 @@ func TestGovcReplay(t *testing.T) {
 		},
 	})
 }
+
+func init() {
+	lbTypes := map[string]string{
+		"leastActiveRequestLoadBalancer":    "types.LeastActiveRequest",
+		"leastActiveConnectionLoadBalancer": "types.LeastActiveConnection",
+		"roundRobinLoadBalancer":            "types.RoundRobin",
+		"randomLoadBalancer":                "types.Random",
+		"reqRoundRobinLoadBalancer":         "types.RequestRoundRobin",
+		"EdfLoadBalancer":                   "types.WeightedRoundRobin",
+		"WRRLoadBalancer":                   "types.WeightedRoundRobin",
+		"peakEwmaLoadBalancer":              "types.PeakEwma",
+	}
+	harnesses = append(harnesses, &harness{
+		name: "load-balancer health/membership replay (real hosts, every single-healthy pattern)",
+		match: func(o *Obligation) bool {
+			if o.Kind != "post" || !strings.Contains(o.Func, "pkg/upstream/cluster.") {
+				return false
+			}
+			for k := range lbTypes {
+				if strings.Contains(o.Func, "(*"+k+")") {
+					return true
+				}
+			}
+			return false
+		},
+		run: func(eng *Engine, o *Obligation) *ReplayOutcome {
+			lbType := ""
+			for k, v := range lbTypes {
+				if strings.Contains(o.Func, "(*"+k+")") {
+					lbType = v
+				}
+			}
+			src := fmt.Sprintf(`package cluster
+
+import (
+	"context"
+	"fmt"
+	"testing"
+
+	"mosn.io/api"
+	v2 "mosn.io/mosn/pkg/config/v2"
+	"mosn.io/mosn/pkg/types"
+	"mosn.io/pkg/variable"
+)
+
+type govcLbCtx struct {
+	types.LoadBalancerContext
+	ctx context.Context
+}
+
+func (c *govcLbCtx) DownstreamContext() context.Context { return c.ctx }
+
+// The refuted postcondition says: some host of the set is healthy, yet the policy returns nil, an
+// unhealthy host or a non-member. Replay on real hosts: equal weights, every pattern with exactly
+// one healthy host (sizes 2..5), fresh context per lookup and one retry lookup on the same context.
+func TestGovcReplay(t *testing.T) {
+	info := &clusterInfo{name: "govc-replay", lbType: %s}
+	bad := ""
+	for n := 2; n <= 5 && bad == ""; n++ {
+		for healthyAt := 0; healthyAt < n && bad == ""; healthyAt++ {
+			var hosts []types.Host
+			for i := 0; i < n; i++ {
+				h := NewSimpleHost(v2.Host{HostConfig: v2.HostConfig{Address: fmt.Sprintf("10.254.%%d.%%d:80", n, i), Hostname: fmt.Sprintf("h%%d", i), Weight: 1}}, info)
+				h.ClearHealthFlag(api.FAILED_ACTIVE_HC)
+				if i != healthyAt {
+					h.SetHealthFlag(api.FAILED_ACTIVE_HC)
+				}
+				hosts = append(hosts, h)
+			}
+			hs := NewHostSet(hosts)
+			lb := NewLoadBalancer(info, hs)
+			for rep := 0; rep < 400 && bad == ""; rep++ {
+				lbctx := &govcLbCtx{ctx: variable.NewVariableContext(context.Background())}
+				for try := 0; try < 2 && bad == ""; try++ {
+					got := lb.ChooseHost(lbctx)
+					switch {
+					case got == nil:
+						bad = fmt.Sprintf("n=%%d healthy host index %%d: no host returned", n, healthyAt)
+					case !got.Health():
+						bad = fmt.Sprintf("n=%%d healthy host index %%d: unhealthy host %%s returned", n, healthyAt, got.Hostname())
+					case got != hosts[healthyAt]:
+						bad = fmt.Sprintf("n=%%d: returned host is not the healthy member", n)
+					}
+				}
+			}
+			for _, h := range hosts {
+				h.ClearHealthFlag(api.FAILED_ACTIVE_HC)
+			}
+		}
+	}
+	if bad != "" {
+		fmt.Println("REPLAY-CONFIRMED " + bad)
+	} else {
+		fmt.Println("REPLAY-NOT-REPRODUCED")
+	}
+}
+`, lbType)
+			out, _ := runOverlayTest("pkg/upstream/cluster", src, "^TestGovcReplay$")
+			return outcomeFromOutput(src, out)
+		},
+	})
+}
